@@ -31,11 +31,6 @@ namespace lg = gmlc::libguarded;
 namespace gc = gmlc::concurrency;
 using vrt::Tracked;
 
-// the specialisations of shared_locker must have bound to the modelled mutexes
-static_assert(std::is_same<lg::shared_locker<vstd::mutex>::locker_type, std::unique_lock<vstd::mutex>>::value, "shim: shared_locker<mutex>");
-static_assert(std::is_same<lg::shared_locker<vstd::timed_mutex>::locker_type, std::unique_lock<vstd::timed_mutex>>::value, "shim: shared_locker<timed_mutex>");
-static_assert(std::is_same<lg::shared_locker<vstd::shared_mutex>::locker_type, std::shared_lock<vstd::shared_mutex>>::value, "shim: shared_locker<shared_mutex>");
-
 inline void reset_case_globals() {
     vrt::tstats().reset();
     vrt::ledger().reset();
